@@ -241,7 +241,7 @@ def run(ctx: Ctx):
     if not os.path.exists(os.path.join(ROOT, "lean", ".lake", "build", "bin", "isladrv")):
         return "infra"
     logging.disable(logging.CRITICAL)
-    n = 800 if ctx.tier == "quick" else 20000
+    n = 800 if ctx.tier == "quick" else 6000
     for case in corpus_cases():
         run_case(ctx, case)
     for _ in range(n):
